@@ -7,7 +7,11 @@
    actions change it and mark the affected profiles dirty.  A sync delivers
    whole profiles with all their devices, as backendpb does: all profiles on a
    full sync, the dirty ones on a partial sync.  seen* is the backend data as
-   of the last delivered sync: the oracle for lookups.
+   DELIVERED so far: the oracle for lookups.  A backend may report a moved
+   device with its new profile only (MoveQuiet: the old profile is not marked
+   as changed, so its record is not delivered again and the database keeps a
+   record that still lists the device); seenOwner says which profile the last
+   delivery that mentioned a device put it into -- the latest data wins.
 
    Implementation part: the six maps of profiledb.Default.  One action per
    lock region:
@@ -22,25 +26,29 @@
    entry unconditionally, also when a newer sync re-assigned the key); TRUE is
    the repaired code (a clean-up spawned before a sync is a no-op after it).
    HumanChecksProfile = FALSE is the pinned tree (ProfileByHumanID returns the
-   device's current profile without comparing it with the requested one).      *)
+   device's current profile without comparing it with the requested one).
+   HumanViaRecord = TRUE is a defective variant: the comparison is made with
+   the requested profile's RECORD (does it list the device?), which may be an
+   old one after a MoveQuiet.                                                 *)
 EXTENDS Naturals, FiniteSets, Sequences, TLC, Json
 
 CONSTANTS Prof, Dev, Linked, Ded, Human,
           MaxMut, MaxSync, MaxPending,
-          CleanupChecksGen, HumanChecksProfile,
+          CleanupChecksGen, HumanChecksProfile, HumanViaRecord,
           KeepHist
 
 None == "none"
 NF == [found |-> FALSE]
 
 VARIABLES tProf, tDev, dirty,            \* ghost backend
-          seenProf, seenDev,             \* ghost: backend as of the last sync
+          seenProf, seenDev, seenOwner,  \* ghost: backend data as delivered so far; owner of a device by the latest delivery
+          quiet,                         \* ghost: devices moved quietly and not delivered since
           profiles, devices, dev2prof, linked2dev, ded2dev, human2dev,   \* Default's maps
           pending,                       \* clean-ups spawned and not yet run: [kind, key, fresh]
           file,                          \* cache file: [present, prof, dev]
           nmut, nsync, hist
 
-ghost == <<tProf, tDev, dirty, seenProf, seenDev>>
+ghost == <<tProf, tDev, dirty, seenProf, seenDev, seenOwner, quiet>>
 maps == <<profiles, devices, dev2prof, linked2dev, ded2dev, human2dev>>
 vars == <<ghost, maps, pending, file, nmut, nsync, hist>>
 
@@ -52,7 +60,7 @@ TDev0 == [present |-> TRUE, linked |-> None, ded |-> {}, human |-> None]
 H(e) == hist' = IF KeepHist THEN Append(hist, e) ELSE hist
 
 Init == /\ tProf = [p \in Prof |-> TProf0] /\ tDev = [d \in Dev |-> TDev0] /\ dirty = {}
-        /\ seenProf = [p \in Prof |-> NoProf] /\ seenDev = [d \in Dev |-> NoDev]
+        /\ seenProf = [p \in Prof |-> NoProf] /\ seenDev = [d \in Dev |-> NoDev] /\ seenOwner = [d \in Dev |-> None] /\ quiet = {}
         /\ profiles = [p \in Prof |-> NoProf] /\ devices = [d \in Dev |-> NoDev]
         /\ dev2prof = [d \in Dev |-> None] /\ linked2dev = [i \in Linked |-> None]
         /\ ded2dev = [e \in Ded |-> None] /\ human2dev = [k \in Human \X Prof |-> None]
@@ -65,8 +73,10 @@ Init == /\ tProf = [p \in Prof |-> TProf0] /\ tDev = [d \in Dev |-> TDev0] /\ di
 ProfOf(tp, d) == IF \E p \in Prof : d \in tp[p].devs THEN CHOOSE p \in Prof : d \in tp[p].devs ELSE None
 HumanClash(tp, td, d, p, h) == h # None /\ \E e \in tp[p].devs \ {d} : td[e].human = h
 Touch(S) == dirty' = dirty \cup (S \ {None})
-Mut == nmut < MaxMut /\ nmut' = nmut + 1
-GhostRest == UNCHANGED <<seenProf, seenDev, maps, pending, file, nsync>>
+\* (a quiet move is the last change before the next delivery: the ghost stays unambiguous)
+Mut == nmut < MaxMut /\ nmut' = nmut + 1 /\ quiet = {}
+GhostRest0 == UNCHANGED <<seenProf, seenDev, seenOwner, maps, pending, file, nsync>>
+GhostRest == GhostRest0 /\ UNCHANGED quiet
 
 Attach(d, p) ==
     /\ Mut /\ ProfOf(tProf, d) = None /\ ~HumanClash(tProf, tDev, d, p, tDev[d].human)
@@ -81,6 +91,14 @@ Move(d, q) ==
     /\ LET p == ProfOf(tProf, d) IN
          /\ tProf' = [tProf EXCEPT ![p].devs = @ \ {d}, ![q].devs = @ \cup {d}] /\ Touch({p, q})
     /\ UNCHANGED tDev /\ H([a |-> "Move", d |-> d, p |-> q, k |-> ""]) /\ GhostRest
+\* the backend reports the move with the NEW profile only
+MoveQuiet(d, q) ==
+    /\ Mut /\ ProfOf(tProf, d) \notin {None, q} /\ ~HumanClash(tProf, tDev, d, q, tDev[d].human)
+    /\ LET p == ProfOf(tProf, d) IN
+         /\ p \notin dirty                       \* (a profile that is reported anyway is reported as it is)
+         /\ tProf' = [tProf EXCEPT ![p].devs = @ \ {d}, ![q].devs = @ \cup {d}] /\ Touch({q})
+    /\ quiet' = {d}
+    /\ UNCHANGED tDev /\ H([a |-> "MoveQuiet", d |-> d, p |-> q, k |-> ""]) /\ GhostRest0
 \* d takes linked IP i (taking it away from whoever had it); i = None clears it
 SetLinked(d, i) ==
     /\ Mut /\ tDev[d].linked # i
@@ -110,7 +128,7 @@ SetDeleted(p) ==
     /\ Mut /\ tProf' = [tProf EXCEPT ![p].deleted = ~@] /\ Touch({p})
     /\ UNCHANGED tDev /\ H([a |-> "SetDeleted", d |-> "", p |-> p, k |-> ""]) /\ GhostRest
 
-Mutate == \/ \E d \in Dev, p \in Prof : Attach(d, p) \/ Move(d, p)
+Mutate == \/ \E d \in Dev, p \in Prof : Attach(d, p) \/ Move(d, p) \/ MoveQuiet(d, p)
           \/ \E d \in Dev : Detach(d)
           \/ \E d \in Dev, i \in Linked \cup {None} : SetLinked(d, i)
           \/ \E d, e \in Dev : SwapLinked(d, e)
@@ -143,7 +161,13 @@ Sync(full) ==
     /\ nsync < MaxSync /\ nsync' = nsync + 1
     /\ (nsync = 0 => full)                         \* the first refresh is always a full one
     /\ Apply(full, IF full THEN Prof ELSE dirty, tProf, tDev)
-    /\ seenProf' = tProf /\ seenDev' = tDev /\ dirty' = {}
+    /\ LET delivered == IF full THEN Prof ELSE dirty
+           dd == UNION {tProf[p].devs : p \in delivered} IN
+       /\ seenProf' = [p \in Prof |-> IF p \in delivered THEN tProf[p] ELSE seenProf[p]]
+       /\ seenOwner' = [d \in Dev |-> IF d \in dd THEN ProfOf(tProf, d)
+                                      ELSE IF seenOwner[d] \in delivered THEN None   \* its profile came without it
+                                      ELSE seenOwner[d]]
+    /\ seenDev' = tDev /\ dirty' = {} /\ quiet' = {}
     /\ pending' = Stale(pending)
     /\ file' = IF full THEN [present |-> TRUE, prof |-> tProf, dev |-> tDev] ELSE file
     /\ H([a |-> IF full THEN "FullSync" ELSE "PartialSync", d |-> "", p |-> "", k |-> ""])
@@ -157,7 +181,7 @@ Restart ==
        ELSE /\ profiles' = [p \in Prof |-> NoProf] /\ devices' = [d \in Dev |-> NoDev]
             /\ dev2prof' = [d \in Dev |-> None] /\ linked2dev' = [i \in Linked |-> None]
             /\ ded2dev' = [e \in Ded |-> None] /\ human2dev' = [k \in Human \X Prof |-> None]
-    /\ seenProf' = file.prof /\ seenDev' = file.dev
+    /\ seenProf' = file.prof /\ seenDev' = file.dev /\ seenOwner' = [d \in Dev |-> ProfOf(file.prof, d)] /\ quiet' = {}
     /\ dirty' = Prof                                \* everything may have changed since the file was written
     /\ pending' = {}
     /\ H([a |-> "Restart", d |-> "", p |-> "", k |-> ""])
@@ -198,7 +222,8 @@ ByHuman(h, p) ==
     ELSE LET b == ByDev(human2dev[<<h, p>>]) IN
          IF ~b.r.found THEN [r |-> NF, spawn |-> b.spawn \cup (IF b.why = "dev" THEN {C("human", h, p)} ELSE {})]
          ELSE IF b.r.drec.human # h THEN [r |-> NF, spawn |-> {C("human", h, p)}]
-         ELSE IF HumanChecksProfile /\ b.r.p # p THEN [r |-> NF, spawn |-> {C("human", h, p)}]
+         ELSE IF HumanChecksProfile /\ (IF HumanViaRecord THEN b.r.d \notin profiles[p].devs ELSE b.r.p # p)
+              THEN [r |-> NF, spawn |-> {C("human", h, p)}]
          ELSE [r |-> b.r, spawn |-> {}]
 
 Spawn(S) == /\ S # {} /\ ~(S \subseteq pending) /\ Cardinality(pending \cup S) <= MaxPending
@@ -233,12 +258,12 @@ Spec == Init /\ [][Next]_vars
 \* The oracle: who owns a key in the data of the last sync
 
 OwnerRes(p, d) == [found |-> TRUE, p |-> p, d |-> d, prec |-> seenProf[p], drec |-> seenDev[d]]
-Attached == {d \in Dev : ProfOf(seenProf, d) # None}
-OwnerDev(d) == IF d \in Attached THEN OwnerRes(ProfOf(seenProf, d), d) ELSE NF
-OwnerBy(S) == IF S = {} THEN NF ELSE LET d == CHOOSE d \in S : TRUE IN OwnerRes(ProfOf(seenProf, d), d)
+Attached == {d \in Dev : seenOwner[d] # None}
+OwnerDev(d) == IF d \in Attached THEN OwnerRes(seenOwner[d], d) ELSE NF
+OwnerBy(S) == IF S = {} THEN NF ELSE LET d == CHOOSE d \in S : TRUE IN OwnerRes(seenOwner[d], d)
 OwnerLinked(i) == OwnerBy({d \in Attached : seenDev[d].linked = i})
 OwnerDed(x) == OwnerBy({d \in Attached : x \in seenDev[d].ded})
-OwnerHuman(h, p) == OwnerBy({d \in seenProf[p].devs : seenDev[d].human = h})
+OwnerHuman(h, p) == OwnerBy({d \in seenProf[p].devs : seenOwner[d] = p /\ seenDev[d].human = h})
 
 \* C14: in every state, every lookup answers from the latest synchronised data
 LookupCorrect ==
